@@ -41,6 +41,7 @@ def main():
         cdir, ckey, cfresh, csecs = canary_facts()
         C = Facts(cdir, files=("ldpcv_canary-lib.json",))
         ck = Check(pid, tier, level, seed)
+        ck.t0 = t0
         ck.extra["facts_key"] = key
         ck.extra["bodies_in_lib"] = len(F.by_crate["ldpc_toolbox-lib"])
         if hasattr(mod, "selftest"):
